@@ -18,6 +18,8 @@ enum Via {
 	Slice,
 	Unknown,
 	Shared,
+	/// a zero-sized input type of unknown length, decoded through without type erasure
+	Zst,
 }
 
 fn measure(ops: &TypeOps, b: &[u8], via: Via) -> (AllocStats, bool, u64) {
@@ -31,6 +33,15 @@ fn measure(ops: &TypeOps, b: &[u8], via: Via) -> (AllocStats, bool, u64) {
 			let ok = kept.is_some();
 			drop(kept);
 			(st, ok, spy.delivered)
+		},
+		Via::Zst => {
+			monitor::ops::zst_input_load(b);
+			alloc::begin();
+			let kept = (d.zst_keep)();
+			let st = alloc::end();
+			let ok = kept.is_some();
+			drop(kept);
+			(st, ok, monitor::ops::zst_input_state().1)
 		},
 		Via::Shared => {
 			let owned = b.to_vec();
@@ -122,7 +133,7 @@ pub fn c09(ctx: &Ctx) {
 				continue;
 			}
 			// honest decode: the absolute bound must hold with headroom (calibration of oracle B)
-			for via in [Via::Slice, Via::Unknown, Via::Shared] {
+			for via in [Via::Slice, Via::Unknown, Via::Shared, Via::Zst] {
 				rep.begin(|| format!("C09 {} honest {:?} {}", ops.name, via, hex(&case.bytes)));
 				let (st, ok, delivered) = measure(ops, &case.bytes, via);
 				rep.evaluations += 1;
@@ -163,7 +174,7 @@ pub fn c09(ctx: &Ctx) {
 					payloads.push(("long", long));
 				}
 				for (pname, payload) in &payloads {
-					for via in [Via::Slice, Via::Unknown, Via::Shared] {
+					for via in [Via::Slice, Via::Unknown, Via::Shared, Via::Zst] {
 						let build = |c: u128| {
 							let mut b = case.bytes[..m.pos].to_vec();
 							compact_encode(c, &mut b);
@@ -280,7 +291,7 @@ pub fn c09(ctx: &Ctx) {
 					b.push(0);
 					b.push(0);
 					b.resize(b.len() + 65_536, 0);
-					for via in [Via::Slice, Via::Unknown, Via::Shared] {
+					for via in [Via::Slice, Via::Unknown, Via::Shared, Via::Zst] {
 						rep.begin(|| format!("C09 Tree nested {levels} levels claiming {claimed} via {:?}", via));
 						let (st, _ok, delivered) = measure(ops, &b, via);
 						rep.evaluations += 1;
